@@ -938,6 +938,10 @@ func htmlEscapeModel(ec *evalCtx, s *Term) *Term {
 		return Str(htmlEscapeConst(s.Str))
 	}
 	r := App("html.EscapeString", SStr, s)
+	if ec.e().langUsed["NO_0a_STAR"] {
+		// escaping replaces five ASCII characters by character references: it neither adds nor removes line feeds
+		ec.st.Assume(Eq(ec.e().inL(s, "NO_0a_STAR"), ec.e().inL(r, "NO_0a_STAR")))
+	}
 	ec.st.Assume(ec.e().inL(r, "HTML_ESCAPED"))
 	ec.st.Assume(Eq(App("html.UnescapeString", SStr, r), s))
 	ec.e().trusted["std:html.EscapeString (result in HTML_ESCAPED; UnescapeString inverts it)"] = true
